@@ -6,6 +6,7 @@ Part B: every builtin scalar provider (incl. the optional ones of the public API
         container, against a hostile pool; direct oracle: the exception must be a LoadError all the way down.
 """
 import collections
+import collections.abc
 import datetime as dt
 import decimal
 import enum
@@ -186,6 +187,16 @@ def cause_of(exc):
     return "other"
 
 
+def has_class_object(d):
+    if isinstance(d, type):
+        return True
+    if isinstance(d, dict):
+        return any(has_class_object(k) or has_class_object(v) for k, v in d.items())
+    if isinstance(d, (list, tuple)):
+        return any(has_class_object(x) for x in d)
+    return False
+
+
 def structural_pool():
     """data whose *shape* is hostile: keys that are not strings / not hashable-friendly / not comparable with each other,
     unhashable elements, ints beyond the int -> str digit limit as values and as keys (they end up in trails)"""
@@ -198,7 +209,8 @@ def structural_pool():
             {"a": 1.5}, {"a": 1, "rest": 3}, {"a": 1, "rest": {3: 4}}, {"a": 1, frozenset(): 1}, {"a": 1, 1.5: 2},
             {"a": 1, b"k": 2}, {"a": 1, "self": 3}, {"a": 1, "cls": 3}, {"a": 1, "a_": 2}, {"a": 1, "": 2}, {"a": 1, "not an id": 2},
             [[1]], [[1], [2]], [{}], [{1: 2}], [set()], [1, [2]], {(1,): 1}, {"k": [1]}, {"k": {}}, {big: "bad"}, [big], [big, "bad"],
-            {"k": big}, (big, big), {1: "bad", "x": "bad"}, {None: "bad", "x": 1}]
+            {"k": big}, (big, big), {1: "bad", "x": "bad"}, {None: "bad", "x": 1},
+            dict, list, set, tuple, str, collections.OrderedDict, collections.abc.Mapping, {"a": dict}, [list], {"d": dict, "l": list}]
     return base + [{"p": x} for x in base[:16]] + [{"p": {"q": 1, 3: 4}}, {"p": {"q": 1}, 3: 4}, {"p": [1]}, {"p": {"q": 1, 0: 2}},
                                                    {"p": {"q": 1, None: 2, "u": 3}}]
 
@@ -270,7 +282,10 @@ def part_c(rep, tier, only=None):
                                 leaf = e
                                 while getattr(leaf, "exceptions", None):
                                     leaf = [s for s in leaf.exceptions if not only_load_errors(s)][0]
-                                leaks.setdefault((cause_of(leaf), cname, tn, type(leaf).__name__), []).append(
+                                cause = cause_of(leaf)
+                                if cause == "other" and has_class_object(d):
+                                    cause = "class-object-as-datum"
+                                leaks.setdefault((cause, cname, tn, type(leaf).__name__), []).append(
                                     (sc, mode, i, safe_repr(d), safe_repr(leaf, 120)))
     if only is None:
         for (cause, cname, tn, exn), where in sorted(leaks.items()):
@@ -281,6 +296,62 @@ def part_c(rep, tier, only=None):
                                            for s, m, i, d, x in where[:4]],
                            "n_cases": len(where)})
     return n, leaks
+
+
+class RA:
+    pass
+
+
+@dataclass
+class RecA:
+    bs: List["RecB"]
+
+
+@dataclass
+class RecB:
+    a: Optional[RecA]
+    n: int = 0
+
+
+def recursion_across_retorts(rep):
+    """mutually recursive models one of which is served by a retort placed in the recipe (bound(RecB, Retort())): data that
+    a plain retort loads must load, bad data must raise LoadError - nothing else, at every nesting depth"""
+    from adaptix import DebugTrail, Retort, bound
+    from adaptix.load_error import LoadError
+    good = [{"bs": []}, {"bs": [{"a": None}]}, {"bs": [{"a": {"bs": []}}]}, {"bs": [{"a": {"bs": [{"a": None, "n": 2}]}}, {"a": None}]}]
+    bad = [{"bs": [{"a": {"bs": "x"}}]}, {"bs": [{"a": {"bs": [{"a": 5}]}}]}, {"bs": [{"a": {}}]}]
+    n = 0
+    seen = set()
+    for mode in ("DISABLE", "FIRST", "ALL"):
+        dm = getattr(DebugTrail, mode)
+        for label, rt in (("outer-serves-A", Retort(recipe=[bound(RecB, Retort(debug_trail=dm))], debug_trail=dm)),
+                          ("outer-serves-B", Retort(recipe=[bound(RecA, Retort(debug_trail=dm))], debug_trail=dm))):
+            for tp, wrap in ((RecA, lambda d: d), (RecB, lambda d: {"a": d})):
+                for d in good + bad:
+                    n += 1
+                    try:
+                        rt.load(wrap(d), tp)
+                        ok = True
+                    except LoadError:
+                        ok = False
+                    except BaseException as e:  # noqa: BLE001
+                        leaf = e
+                        while getattr(leaf, "exceptions", None):
+                            leaf = leaf.exceptions[0]
+                        sig = f"escape:structure:recursion-across-retorts:{type(leaf).__name__}"
+                        if sig not in seen:
+                            seen.add(sig)
+                            rep.violation(sig, "property-violated",
+                                          {"what": f"{type(leaf).__name__} ({str(leaf)[:80]}) escapes while loading mutually recursive models one of "
+                                                   f"which is served by a retort placed in the recipe ({label})", "mode": mode,
+                                           "type": tp.__name__, "datum": repr(wrap(d)), "valid_for_a_plain_retort": d in good})
+                        continue
+                    if ok != (d in good) and "acc" not in seen:
+                        seen.add("acc")
+                        rep.violation("recursion-across-retorts:acceptance", "property-violated",
+                                      {"what": "a retort with a nested retort for one class of a recursive pair accepts / rejects other data "
+                                               "than a plain retort", "datum": repr(wrap(d)), "mode": mode, "accepted": ok})
+    return n
 
 
 def run(rep, tier, seed):
@@ -310,6 +381,7 @@ def run(rep, tier, seed):
                            "strict_coercion": sc, "mode": lg.MODES[mi]})
     nb, leaks = part_b(rep, tier)
     nc, leaks_c = part_c(rep, tier)
+    nc += recursion_across_retorts(rep)
     rep.cov.update({
         "evaluations": len(cases) + nb + nc,
         "distinct_nontrivial": len({repr((c[2], c[3])) for c in cases if c[2][0] not in ("TInt", "TStr", "TBool", "TNone", "TAny")}),
